@@ -36,8 +36,13 @@ CONDS = {
     "or": ("or", ("cmp", "eq", E, L(3)), ("cmp", "eq", A(X, "p"), L(2))),
     "notelem": ("not", ("cmp", "eq", E, L(1))),
     "elem_vs_parent": ("cmp", "gt", E, A(X, "p")),
+    # a condition on an UNRELATED variable (two values) first, then a disjunction whose first side constrains the parent
+    # only: the disjunction's rows are asked for once per value of the unrelated variable
+    "unrel_or": ("and", ("cmp", "ge", A(("v", "z"), "p"), L(1)), ("or", ("cmp", "eq", A(X, "p"), L(2)), ("cmp", "ge", E, L(2)))),
+    "unrel_or2": ("and", ("cmp", "ge", A(("v", "z"), "p"), L(1)), ("or", ("cmp", "eq", A(X, "p"), L(1)), ("cmp", "eq", E, L(3)))),
 }
 VX = ("x", "let", "Item", "P")
+VZ = ("z", "let", "Item", "U")
 # parents whose elements are parents of the same domain (mutual references: the same objects can be bound to the parent
 # variable and to the element)
 EP = A(E, "p")
@@ -109,7 +114,8 @@ SUBPARENTS = {
 
 FALSY = {"f:0": 0, "f:None": None, "f:False": False, "f:0.0": 0.0}     # (written as keys: 0 == False == 0.0 as case keys)
 FALSY_SCALARS = tuple(FALSY)
-FALSY_CONDS = ("none", "parent", "const", "or")      # (no ordering comparisons: None is not ordered)
+FALSY_CONDS = ("none", "parent", "const", "or")
+      # (no ordering comparisons: None is not ordered)
 
 
 def falsy_scalar_cases(tier):
@@ -161,7 +167,8 @@ def wspec_of(combo):
     if combo and combo[0] == "obj":
         return (("P", "Item", tuple((("p", i % 2 + 1), ("items", ())) for i in range(len(combo) - 1))),)
     return (("P", "Item", tuple((("p", i % 2 + 1), ("items", ("raw!", FALSY[inner]) if inner in FALSY else inner))
-                                for i, inner in enumerate(combo))),)
+                                for i, inner in enumerate(combo))),
+            ("U", "Item", ((("p", 1),), (("p", 2),))))
 
 
 def query_of(case):
@@ -175,7 +182,7 @@ def query_of(case):
             return ("Q", "an", "setof", (e, parent), (), (VX,))
         return ("Q", "an", "setof", (e,), (("cmp", "ge", e, L(1)),), (VX,))
     c = (OCONDS if combo and combo[0] == "obj" else CONDS)[ck]
-    return ("Q", "an", "setof", SELS[sk], (c,) if c else (), (VX,))
+    return ("Q", "an", "setof", SELS[sk], (c,) if c else (), (VX, VZ) if ck.startswith("unrel") else (VX,))
 
 
 def run_case(case, inst):
@@ -214,7 +221,7 @@ def run_case(case, inst):
         return got1, got2, exp, total
 
     got1, got2, exp, total = run_isolated(body, caching=caching)
-    multiset = sk not in ("e", "e_cond")
+    multiset = sk not in ("e", "e_cond") and not ck.startswith("unrel")      # (an unselected variable: the result set)
     res = {"ok": True, "nontrivial": 0 < len(exp) < total, "transitions": 2,
            "tags": [f"sel={sk}", f"cond={ck}", f"caching={'on' if caching else 'off'}", f"parents={len(combo)}"]
                    + (["repeated_in_one_collection"] if any(isinstance(i, tuple) and len(set(i)) < len(i) for i in combo) else [])
